@@ -5,7 +5,6 @@ NOTES = ("One entry point: ./check <ID> [--tier quick|thorough] [--replay FILE].
 
 NOT_APPLICABLE = [
     dict(property_id="C04", reason="end state of a process tree (tokio tasks + ssh + remote sh pipelines); no contract on a Rust function states it. Decidable fragments are claimed under C19 (plan), C15 (exclude/delete) and C09 (per-file delivery)."),
-    dict(property_id="C14", reason="stability of (size, mtime) through SystemTime, remote `touch -d @` and `find -printf %T@` in three directions; two of the three actors are not Rust code. needs_transfer (C19) is the decidable fragment."),
 ]
 
 CHECKS = {}
@@ -71,6 +70,9 @@ CHECKS["C06"] = dict(
     text="Exact per-action contract for what apply records, winner/loser rule of divergent edits (greater BLAKE3 at the path, loser at the conflict-copy name, both sides), record-names-only-live-paths invariant of run_bisync; convergence/idempotence as whole-tree equality is exercised by the history twin only.",
     note=_BISYNC_NOTE, technique="Verus contracts against a ghost file-system world", design_ref="DESIGN.md §3 C02/C06/C07/C08")
 _SERVE_NOTE = "Trusted: Verus+Z3 / Kani+CBMC, extractor rules, ghost world with commit lock and process-private staging names, fs2 flock as mutual exclusion, std::path component grammar behind safe_join (assumed, validated), ciborium by contract. Interleavings are not explored by a verifier: the lock-discipline contracts plus the standard linearizability argument; the session twin forces named schedules on the real binary."
+CHECKS["C14"] = dict(text="The per-file chain behind 'an unchanged tree is never re-sent', as contracts on the real functions: the quick check needs_transfer/build_plan selects a file exactly when it is absent or differs in size or whole-second mtime (Verus + Kani, shared with C19); deliver_local/deliver_pull leave the delivered file with the planned whole-second mtime (Verus, against the one-way world extended with mtimes); lemma: such a file is not selected again. The two-run, three-direction statement itself is exercised by a BOUNDED twin on the real binary (sub-second, epoch and far-future mtimes).",
+                     note="Trusted: set_local_mtime/mtime_secs and the discover_* functions by contract; the one-way world. Not decided by contract: the orchestration functions, the push direction and the remote listing (shell).",
+                     technique="Verus contracts (quick check; mtime postcondition of delivery; composition lemma) + Kani (needs_transfer); bounded second-run twin on the real binary", design_ref="DESIGN.md §3 C14")
 CHECKS["C13"] = dict(text="Verus contract on the extracted hub_sync over a ghost request log: after the List the run sends only compare-and-swap Puts, one for each local file whose listed hash differs, with expected == the listed hash and the local fingerprint as content hash; up-to-date files are skipped; Ok iff every needed Put was committed. That is the client-side half of the property for ONE run; the hub-side half is C03/C10. A run twin on the real binary (quiet hub, immediate second run, forced stale listing) validates the assumed HubClient contract.",
                      note="Trusted: HubClient methods and discover_local_fingerprints by contract, two R5 shims, the BTreeMap key model. Not decided: multi-client run sequences (induction on runs is a paper argument), the SSH target form.",
                      technique="Verus contract over a ghost request log (per-run client protocol); run twin on the real binary", design_ref="DESIGN.md §3 C13")
